@@ -1,4 +1,5 @@
 import Ecal.Lemmas.ExprFuel
+import Ecal.Lemmas.ExprTotal
 import Ecal.Gen.C03
 /-!
 # C03 — expressions evaluate per the documented operator semantics and precedence
@@ -7,7 +8,7 @@ Model: `Ecal/Model/Expr.lean`. `T` below is the table regenerated from
 `/repo/parser/parser.go` (`Ecal/Gen/C03.lean`) on every run; every fact about it is
 re-checked by `decide`.
 
-Precedence: `pratt_print`, `pratt_print_redundant`, `layout_irrelevant` and the
+Precedence: `pratt_print`, `pratt_print_redundant`, `layout_irrelevant_partial` and the
 corollaries `left_assoc`, `tighter_first`, `prefix_sign_tightest`,
 `not_takes_comparison`. Semantics: `eval_refines_spec`, `wrong_kind_*`.
 -/
@@ -112,12 +113,24 @@ theorem pratt_print_redundant (e : Expr) (ks : List TK) (hp : Prints e .top .non
     Impl.parse T (program ts eofLine) = .ok e :=
   parse_prints table_compat (by decide) hp ts eofLine h
 
-/-- C03 (layout): two token lists that write the same admissible print — same tokens,
-    ANY line numbers — give the same tree. -/
-theorem layout_irrelevant (e : Expr) (ks : List TK) (hp : Prints e .top .none ks)
+/- Full statement (not provable in this file, which starts from tokens):
+     for source texts s1 s2 that differ only in blanks / tabs / newlines between tokens and are one
+     statement each, `Impl.parse (lex s1) = Impl.parse (lex s2)`.
+   Proved below: the part after the lexer — the parse does not depend on the line numbers of the
+   tokens. Missing: that the real lexer yields the same token texts for s1 and s2 (lexer model,
+   owned by C18/C08); this part is covered by the differential run only (random layouts, tokens
+   taken from the real lexer). -/
+/-- C03 (layout, the part after the lexer): two token lists that write the same admissible
+    print — same tokens, ANY line numbers — give the same tree. -/
+theorem layout_irrelevant_partial (e : Expr) (ks : List TK) (hp : Prints e .top .none ks)
     (ts1 ts2 : List LTok) (l1 l2 : Nat) (h1 : ts1.map (·.tk) = ks) (h2 : ts2.map (·.tk) = ks) :
     Impl.parse T (program ts1 l1) = Impl.parse T (program ts2 l2) := by
   rw [pratt_print_redundant e ks hp ts1 l1 h1, pratt_print_redundant e ks hp ts2 l2 h2]
+
+/-- C03 (model adequacy): on EVERY token list — well formed or not — the fuel of the
+    executable parser suffices; fuel is only a device for structural recursion. -/
+theorem parse_fuel_suffices (ts : List LTok) : Impl.parse T ts ≠ .error .fuel :=
+  parse_never_out_of_fuel T ts
 
 /-- C03 (the documented grammar is unambiguous): a token sequence is an admissible writing
     of at most one tree — a consequence of the parser reading every writing back. -/
